@@ -220,6 +220,50 @@ theorem listing_roundtrip_backward {decode : Decoder} {b : List UInt8} {es : Lis
   have hbr := traverse_brInv hst e (by rw [hes]; exact he) t ht
   exact ⟨h1, by simpa using hbr, wf.targets e he t ht h2⟩
 
+/-- C20.roundtrip, semantic form — **no canonical-encoding hypothesis** (alias encodings allowed). Under the other
+hypotheses of `listing_roundtrip_backward`, with every instruction of the file merely encodable in its own length
+(`henc`; what C03 `dec_canon` gives for decoded instructions): the re-assembled image is a file `b'` of the same
+length whose segmentation is the same `es` — same addresses, same instructions, same lengths — each instruction now in
+its canonical encoding (`EntryOk b' e`). So the image decodes to the same instruction sequence; it equals `b` byte for
+byte iff `b` was canonically encoded. -/
+theorem listing_roundtrip_semantic {decode : Decoder} {b : List UInt8} {es : List Entry}
+    (wf : WellFormed decode b es) (hc : Chain es BASE (BASE + b.length))
+    (henc : ∀ e ∈ es, ∃ hws, Codec.encode e.instr = .ok hws ∧ e.instr.wf ∧ Show.targetInRange e.instr e.addr ∧
+      2 * hws.length = e.after - e.addr)
+    (hpc : ∀ e ∈ es, Show.targetOf e.instr e.addr = getBranch e.instr e.addr)
+    (hback : ∀ e ∈ es, ∀ d, getBranch e.instr e.addr = some d → d ≤ e.addr ∧ inFile b.length d) :
+    ∃ ls b', listing decode b = .ok ls ∧ b'.length = b.length ∧ (∀ e ∈ es, EntryOk b' e) ∧
+      ∀ (fs : Bytes → Option Bytes) (main : Bytes), fs main = some (listingText ls) →
+        Asm.run fs main = .done ⟨true, none, true, [], [(BASE, b')]⟩ := by
+  obtain ⟨st, hst, hes⟩ := traverse_covers_ok wf
+  have hl : listing decode b = .ok (Line.header :: render st.branches st.instrs false BASE) := by
+    unfold listing; rw [hst]
+  rw [hes] at hl
+  have hcl : ∀ e ∈ es, (canon e).length = e.after - e.addr := by
+    intro e he
+    obtain ⟨hws, h1, _, _, h4⟩ := henc e he
+    simp [canon, h1, Asm.toBytes_length, h4]
+  obtain ⟨hlen, hsl⟩ := canon_slices es BASE (BASE + b.length) [] hc (Nat.le_refl _) (by simp) hcl
+  simp only [List.nil_append] at hlen hsl
+  have hlen' : ((es.map canon).flatten).length = b.length := by omega
+  have hok : ∀ e ∈ es, EntryOk ((es.map canon).flatten) e := by
+    intro e he
+    obtain ⟨hws, h1, h2, h3, _⟩ := henc e he
+    exact ⟨hws, h1, h2, h3, by rw [hsl e he]; simp [canon, h1]⟩
+  refine ⟨_, (es.map canon).flatten, hl, hlen', hok, fun fs main hfs => ?_⟩
+  have hne : (es.map canon).flatten ≠ [] := by
+    obtain ⟨e, he, _⟩ := wf.first
+    have := wf.size e he
+    intro h; rw [h] at hlen'; simp at hlen'; omega
+  have hsmall : BASE + ((es.map canon).flatten).length ≤ 4294967296 := by
+    have := wf.small; unfold two32 at this; omega
+  refine listing_run fs main _ st.branches es hne hsmall (by rw [hlen']; exact hc) hok ?_ hfs
+  intro e he t ht
+  rw [hpc e he] at ht
+  obtain ⟨h1, h2⟩ := hback e he t ht
+  have hbr := traverse_brInv hst e (by rw [hes]; exact he) t ht
+  exact ⟨h1, by simpa using hbr, wf.targets e he t ht h2⟩
+
 /-- **The property's "reproduces every input byte" fails for alias encodings** (known finding K3). `40 1C` is
 `ADDS R0, R0, #1` in the three-operand form (T1) with Rd = Rn; the decoder returns `add true 0 0 (imm 1)`, tridas prints
 `ADDS R0, R0, 1;`, and the encoder emits the two-operand form `01 30` (T2): the same instruction in the ARMv6-M table
